@@ -23,8 +23,10 @@ QUICK_MODELS = [
     ("regress", dict(RegSteps=1, MaxFun=5, NPT=3)),
     ("grow", dict(NdirsInit=1, NPT=3, MaxFun=5)),
     ("huge_anydrop", dict(WithInf=True, WithHuge=True, RhoDropAny=True, RhoLevels=3, MaxFun=5)),     # the generalisations used when real runs are followed (DfolsCtl.tla)
+    ("grownew", dict(NdirsInit=1, NPT=3, MaxFun=5, NewDirs=1)),
 ]
 THOROUGH_MODELS = [
+    ("grownew2_soft", dict(NdirsInit=1, NPT=4, MaxFun=6, NewDirs=2, UseRestarts=True)),
     ("huge_anydrop_soft", dict(WithInf=True, WithHuge=True, RhoDropAny=True, RhoLevels=3, MaxFun=5, UseRestarts=True, NoisyObjective=True)),
     ("huge_anydrop_hardnew", dict(WithInf=True, WithHuge=True, RhoDropAny=True, RhoLevels=3, MaxFun=5, UseRestarts=True, SoftRestarts=False, UseOldRk=False, NoisyObjective=True)),
     ("grow6", dict(NdirsInit=1, NPT=3, MaxFun=6)),
